@@ -28,6 +28,8 @@ Step ==
         ("simbias" \in Kinds => lit = "9" /\ ops = <<>> /\ p = "p1") /\ Modify(p, q, 0, lit, "", ops, {}, {})
   \/ \E p \in Peers : \E q \in FreshSeq(p) : \E sref \in LiveOrds : \E n \in NodeIds \ DOMAIN nodes :
         "takeover" \in Kinds /\ Modify(p, q, sref, "", n, <<>>, {}, {})
+  \/ \E p \in Peers : \E q \in FreshSeq(p) : \E sref \in LiveOrds : \E ops \in {<<>>, <<Op("create", "far", 2), Op("remove", "far", 1)>>} :
+        "badnode" \in Kinds /\ Modify(p, q, sref, "", "!bad", ops, {}, {})
   \/ \E p \in Peers : \E q \in FreshSeq(p) : \E sref \in LiveOrds : Delete(p, q, sref, "")
   \/ \E p \in Peers : \E q \in FreshSeq(p) : \E lit \in SeidLits : ("simbias" \in Kinds => lit = "1" /\ p = "p1") /\ Delete(p, q, 0, lit)
   \/ \E k \in 1..turns : "dup" \in Kinds /\ IsReqEv(hist[k]) /\ Retrans(hist[k]) /\ UNCHANGED nseq
